@@ -32,6 +32,7 @@ class Model:
         self.issued_s = set()
         self.issued_o = set()
         self.nobj = 0
+        self.foot = set()         # which KINDS of handle-retiring events have happened per token (part of the state key, see key())
 
     def live_s(self):
         return {s[0] for s in self.sess}
@@ -208,6 +209,7 @@ class C11(CheckBase):
                 if not any(s[1] == t for s in m.sess):
                     m.login[t] = PUBLIC
                     self.slot_emptied(m, t)
+                    m.foot.add(("last-close", t))
                 ctx.count("close_ok")
         elif k == "closeall":
             t = a[1]
@@ -216,6 +218,7 @@ class C11(CheckBase):
                 m.sess = [s for s in m.sess if s[1] != t]
                 m.login[t] = PUBLIC
                 self.slot_emptied(m, t)
+                m.foot.add(("close-all", t))
                 ctx.count("closeall_ok")
         elif k == "login":
             h, t, rw = m.sess[a[1]]
@@ -230,6 +233,7 @@ class C11(CheckBase):
             if r["rv"] == 0:
                 m.login[t] = PUBLIC
                 self.logged_out(m, t)
+                m.foot.add(("logout", t))
                 ctx.count("logout_ok")
         elif k == "create":
             _, i, token, private = a
@@ -300,7 +304,9 @@ class C11(CheckBase):
         objs = tuple((o.tok, o.token, o.private, sidx.get(o.owner, -1) if not o.token else -1, len(o.handles), o.origin) for o in m.objs if o.alive)
         dead_s = min(2, len(m.issued_s - m.live_s()))
         dead_o = min(2, len(m.issued_o - m.live_o()))
-        return (tuple(sorted(m.login.items())), tuple((t, rw) for h, t, rw in m.sess), objs, dead_s, dead_o)
+        # the footprint - which kinds of retiring events (close-all, last close, logout) the token has been through - keeps states apart that the model
+        # considers equal but that the library reached through different bookkeeping paths (tables, counters and caches those paths leave behind)
+        return (tuple(sorted(m.login.items())), tuple((t, rw) for h, t, rw in m.sess), objs, dead_s, dead_o, tuple(sorted(m.foot)))
 
     def died_sig(self, action, d):
         return "C11|%s|%r" % (action[0], d.info)
